@@ -105,6 +105,21 @@ def c06() -> Translator:
     keep = {"check_formatting_width", "check_formatting_height", "format_render_vertical", "format_render_horizontal"}
     tr.done = [d for d in tr.done if d.spec.lean in keep]
     tr.namespace, tr.origin = "TIV.C06.Translated", "harness/c06.py"
+    # new API: the size decision of `Renderable._init_render_` — on the RESOLVED padded size, whatever the padding's shape
+    from term_image.renderable import Renderable
+    tr.add(Fn(
+        py=Renderable._init_render_, lean="init_render_check", pick=stmts_from("if check_size:", 2),
+        params=[("check_size", BOOL), ("allow_scroll", BOOL), ("padding", BOOL), ("padded_size", II), ("terminal_size", II)],
+        rewrite={"render_size: Size = render_data[Renderable].size": "pass",
+                 "padding.get_padded_size(render_size) if padding else render_size": "padded_size",
+                 "renderer(render_data, render_args), padding": "True"},
+        exc={"RenderSizeOutofRangeError": "RenderSizeOutofRangeError"},
+        domain=lambda rng: dict(check_size=rng.random() < .7, allow_scroll=rng.random() < .5, padding=rng.random() < .5,
+                                padded_size=(rng.randint(1, 20), rng.randint(1, 20)),
+                                terminal_size=(rng.randint(1, 20), rng.randint(1, 20))),
+        note="`padded_size` = `padding.get_padded_size(render_size) if padding else render_size` (the padding already "
+             "resolved); the statement after the block is the `return renderer(...)`, represented by True; `padding` only "
+             "selects the wording of the message"))
     return tr
 
 
